@@ -103,8 +103,13 @@ Section Hier.
   (* get_instances_of_type: the weak reference of a wrapper gives None once the instance is dead *)
   Definition deref (L : list orec) (w : wrapper) : option obj :=
     if mem_obj (w_obj w) L then Some (w_obj w) else None.
-  Definition instances (L : list orec) (r : reg) (T : cls) : list (option obj) :=
+  Definition is_some (x : option obj) : bool := match x with Some _ => true | None => false end.
+  (* the lazy generator expression: one value per wrapper, None for a wrapper whose instance is gone ... *)
+  Definition instances_raw (L : list orec) (r : reg) (T : cls) : list (option obj) :=
     flat_map (fun c => map (deref L) (filter (fun w => w_cls w =? c) (wl r))) (T :: rsub fuel T).
+  (* ... passed through filter(lambda instance: instance is not None, ...): a dead reference is never handed out *)
+  Definition instances (L : list orec) (r : reg) (T : cls) : list (option obj) :=
+    filter is_some (instances_raw L r T).
 
   (* ensure_wrapped_instance for the live object o; i = index rustworkx hands out if a node is added *)
   Definition ensure (L : list orec) (r : reg) (o : obj) (i : idx) : reg * option wrapper :=
@@ -172,7 +177,11 @@ Section Hier.
   Fixpoint pull_cur (L : list orec) (seen : list (option obj)) (cur : list wrapper) : option (option obj * list wrapper) :=
     match cur with
     | [] => None
-    | w :: t => let v := deref L w in if existsb (oeqb v) seen then pull_cur L seen t else Some (v, t)
+    | w :: t =>
+        match deref L w with
+        | None => pull_cur L seen t           (* died before its turn: skipped by the registry generator *)
+        | Some o => if existsb (oeqb (Some o)) seen then pull_cur L seen t else Some (Some o, t)
+        end
     end.
   Fixpoint pull_classes (L : list orec) (r : reg) (seen : list (option obj)) (cs : list cls)
     : option (option obj * list wrapper * list cls) :=
